@@ -108,6 +108,25 @@ def gen_random(seed: int, n: int, long_p: float = 0.1) -> List[Dict[str, Any]]:
                 steps.append([t, "add", rng.randint(1, len(srcs)), spec])
             elif sid:
                 steps.append([t, "remove", rng.randint(1, len(srcs)), rng.randint(1, sid)])
+        reuse = None
+        if len(out) % 6 == 2 and not very_long:
+            # the id of a one-shot schedule that has fired (and was removed by its source) is used again for a new schedule
+            olds = [(si0, x) for si0, src0 in enumerate(srcs) for x in src0["sched"]
+                    if x["kind"] == "once" and not x["cancel"] and 0 <= x["T"] <= horizon - 3 * MIN and src0["pre"] != "async"]
+            if olds:
+                si0, x0 = rng.choice(olds)
+                fired = max(x0["T"], start)
+                boundary = (fired // MIN + 1) * MIN
+                if rng.random() < 0.5 and fired + 3500 < boundary:
+                    # used again within the same minute, for a time just after the next poll
+                    t_again = fired + 3000
+                    t_new = boundary + rng.choice([500, 20000, 45000])
+                else:
+                    t_again = boundary + rng.choice([2000, 15000, 40000])
+                    t_new = t_again + rng.choice([-5000, 1000, 20000, 45000, 70000])
+                spec2 = dict(_once(x0["sid"], rng, start, horizon), sid=x0["sid"], cancel=False, lblsid=False, T=t_new)
+                steps.append([t_again, "add", si0 + 1, spec2])
+                reuse = x0["sid"]
         for si, src in enumerate(srcs):   # every third schedule is created the public way: kicker.schedule_by_*(source, ...)
             src["edit"] = si % 2 == 1     # this source's pre_send stamps a label on the schedule it is about to let through
             for x in src["sched"]:
@@ -120,8 +139,13 @@ def gen_random(seed: int, n: int, long_p: float = 0.1) -> List[Dict[str, Any]]:
                 st[3]["viak"] = st[3]["sid"] % 3 == 0
         out.append({"cfg": {"start": start, "horizon": horizon, "srcs": srcs, "kickfail": kickfail, "kicklat": rng.choice([0, 0, 0, 300])},
                     "steps": steps, "family": "sched_random"})
-        if rng.random() < 0.1:
+        if reuse is not None:
+            out[-1]["noconf"] = True          # Scheduler.tla adds schedules under fresh ids only
+            out[-1]["cfg"]["kickfail"] = [kf for kf in kickfail if kf[0] != reuse]
+        if rng.random() < 0.1 and reuse is None:
             out[-1]["cfg"]["kicklat"] = 75000
+        if reuse is not None:
+            out[-1]["cfg"]["kicklat"] = 0        # the first use of the id is over (sent, removed) before the id is used again
     return out
 
 
